@@ -12,7 +12,7 @@ import time
 
 from . import common as C
 
-SIZES = {"quick": 1200, "thorough": 12000}
+SIZES = {"quick": 3000, "thorough": 40000}
 HEADER = "From Moq Require Import Strs GoTypes Registry Scope L1Check.\n"
 
 # which properties a disagreement is about, by what differs
